@@ -71,6 +71,10 @@ LockOpen(f, ok) == /\ pc[f] = "start" /\ ~NoLock
 Lock(f, ok) == /\ pc[f] = "lock"
                /\ IF ok THEN Goto(f, BodyStart) /\ Same(res) ELSE Finish(f, "err")
                /\ Same(<<fs, tmp, rbfail, nextino>>)
+\* open-for-write or fcntl fails with "unsupported" (ENOSYS / EOPNOTSUPP): the file system has no locks, so nobody can hold one -
+\* the command goes on without a lock (FsCommand::maybe_lock)
+LockUnsupported(f) == /\ pc[f] \in {"start", "lock"} /\ ~NoLock /\ locked = {}
+                      /\ Goto(f, BodyStart) /\ Same(<<fs, tmp, res, rbfail, nextino>>)
 SkipLock(f) == /\ pc[f] = "start" /\ NoLock /\ Goto(f, BodyStart) /\ Same(<<fs, tmp, res, rbfail, nextino>>)
 
 \* ---- remove ----
